@@ -260,7 +260,7 @@ func TestC17(t *testing.T) {
 	st := newStats("C17")
 	defer st.Write()
 	_, nsh := shard()
-	n := 100000
+	n := 300000
 	if thorough() {
 		n = 6000000
 	}
